@@ -79,6 +79,7 @@ def any_clipped(case):
 # ------------------------------------------------------------------ C06
 def c06_monitor(case, frames):
     pending_lazy = False   # a lazy fix was processed since the last completed ordered iteration
+    last_lazy = None       # the bar whose lazy fix broke an ordered heap, while nothing else has touched the heap since
     fixed = {}             # bar -> priority set by the last fix request applied
     explicit = {}
     for l in case["hdr"][1:]:
@@ -101,10 +102,20 @@ def c06_monitor(case, frames):
             if idx >= 0:
                 fixed[b] = p
                 if lazy:
+                    # the first lazy change since the heap was last in order: an immediate change of the same bar right
+                    # after it puts the heap back in order (heap.Fix at that bar)
+                    last_lazy = b if not pending_lazy else None
                     pending_lazy = True
+                else:
+                    if last_lazy == b:
+                        pending_lazy = False
+                    last_lazy = None
+        elif k == "HM_REQ" and len(a) >= 2 and a[0].startswith("b") and a[1] == "1":
+            last_lazy = None
         elif k == "HM_REQ" and a[0] == "2" and a[1] == "1":
             pops = []
             dirty_iter = pending_lazy
+            last_lazy = None
         elif k == "HM_POP":
             b, p = bar(a[0]), int(a[1])
             if b in fixed and fixed[b] != p:
